@@ -54,3 +54,49 @@ func VerifC08Once() {
 	vAssert("exchange-completed", comps == 1)
 	vReach("end")
 }
+
+// retransmission after reconnecting with the existing session (PUBREC was sent, PUBREL not yet)
+func VerifC08Reconnect() {
+	ver := byte(vParam("VER", 5))
+	s, _ := vNewServer(nil)
+	pub, _, _ := vConnectClient(s, "pub", ver, false, 8)
+	sub, sc := vNewClient(s, "sub", 5)
+	ss := packets.Subscription{Filter: "t", Qos: 0}
+	s.Topics.Subscribe("sub", ss)
+	sub.State.Subscriptions.Add("t", ss)
+	id := vU16()
+	vAssume(id != 0)
+	pk := packets.Packet{ProtocolVersion: ver, FixedHeader: packets.FixedHeader{Type: packets.Publish, Qos: 2}, PacketID: id, TopicName: "t", Payload: []byte{7}}
+	_ = s.processPacket(pub, pk)
+	vFlush(pub)
+	// connection drops; the client resumes the session and, having seen no PUBCOMP, retransmits
+	pub.Stop(nil)
+	pub2, _, present := vConnectClient(s, "pub", ver, false, 8)
+	vAssert("session-present", present)
+	_ = pub2.ResendInflightMessages(true)
+	n := vLen(vParam("RETX", 1))
+	for i := 0; i < n; i++ {
+		pk.FixedHeader.Dup = true
+		_ = s.processPacket(pub2, pk)
+	}
+	_ = s.processPacket(pub2, packets.Packet{ProtocolVersion: ver, FixedHeader: packets.FixedHeader{Type: packets.Pubrel, Qos: 1}, PacketID: id})
+	vFlush(pub2)
+	vFlush(sub)
+	ws := vParseWire(vConnWritten(sc), 5)
+	got := 0
+	for _, p := range ws.Pkts {
+		if p.Type == packets.Publish && p.Topic == "t" {
+			got++
+		}
+	}
+	vAssert("forwarded-exactly-once-across-reconnect", got == 1)
+	wp := vParseWire(vConnWritten(pub2.Net.Conn), ver)
+	comps := 0
+	for _, p := range wp.Pkts {
+		if p.Type == packets.Pubcomp && p.ID == id {
+			comps++
+		}
+	}
+	vAssert("exchange-completed-after-reconnect", comps == 1)
+	vReach("end")
+}
